@@ -369,18 +369,28 @@ def _slow(case):
     eqz = o.OfdmOneTapEqualizer(obj)
     kind = case['family']
     idx = case['idx']
+    held = None                                   # ONE impulse response object over an array the caller refills,
+    eqz_h = o.OfdmOneTapEqualizer(obj)            # on an equaliser that sees nothing else
     for k, st in enumerate(case['steps']):
         pos = 'first-call' if k == 0 else 'later-call'
         vals = np.array([B.cx(row) for row in st['vals']])
         data = B.cx(st['data'])
         try:
             out = eqz.equalize_data(data.copy(), build_ir(idx, vals.copy()))
+            if held is None or held[0].shape != vals.shape:
+                buf = np.empty(vals.shape, dtype=complex)
+                held = (buf, build_ir(idx, buf))
+            held[0][...] = vals
+            out_h = eqz_h.equalize_data(data.copy(), held[1])
         except Exception as e:
             return 'R15:slowly-varying:raises:%s' % kind, '%s: %s' % (type(e).__name__, str(e)[:120])
         fp, cond = fp_equalize(f, u, data, idx, vals)
         if relerr(out, fp) > SLOW_TOL * max(1.0, cond):
             return 'R15:slowly-varying:%s,%s' % (kind, pos), 'step %d: relative error %.3g against data / mean_j H_j (conditioning %.3g)' % (
                 k, relerr(out, fp), cond)
+        if relerr(out_h, fp) > SLOW_TOL * max(1.0, cond):
+            return 'R15:slowly-varying:impulse-response-object-refilled:%s,%s' % (kind, pos), \
+                'step %d: relative error %.3g against data / mean_j H_j for the taps held at call time' % (k, relerr(out_h, fp))
         # the same slowly varying taps inside a real channel: sample m of the signal meets the taps of sample m
         tx = B.cx(st['tx'])
         try:
@@ -468,6 +478,7 @@ def _reuse_history(case):
     f, c, u = case['fft'], case['cp'], case['used']
     obj = o.OFDM(f, c, u)
     eqz = o.OfdmOneTapEqualizer(obj)
+    eqz_u = o.OfdmOneTapEqualizer(obj)          # an equaliser that only ever sees the caller's ONE impulse response object
     rounds = case['rounds']
     ch, gen = make_scripted_channel(case['delays'], case['powers_dB'], [B.cx(r['draw']) for r in rounds])
     bufs = Buffers(case.get('views', False))
@@ -557,10 +568,11 @@ def _reuse_history(case):
                 if key not in user_ir:
                     user_ir[key] = build_ir(idx, irbuf)
                 IR = user_ir[key]
-                out2 = eqz.equalize_data(bufs.fill('dem', dem_l), IR)
-                if not same_bits(out2, out):
-                    return 'R16:equalize_data:impulse-response-object-refilled,%s' % pos, \
-                        'round %d: differs from the result for an impulse response with the same contents' % k
+                for which, e in (('own-equaliser', eqz_u), ('shared-equaliser', eqz)):
+                    out2 = e.equalize_data(bufs.fill('dem', dem_l), IR)
+                    if not same_bits(out2, out):
+                        return 'R16:equalize_data:impulse-response-object-refilled,%s,%s' % (which, pos), \
+                            'round %d: differs from the result for an impulse response with the same contents' % k
                 if not same_bits(IR.get_freq_response(f), ir.get_freq_response(f)):
                     return 'R16:get_freq_response:impulse-response-object-refilled,%s' % pos, 'round %d' % k
         except Exception as e:
